@@ -196,7 +196,13 @@ def initial_texture(tex, n, seed):
         # the client's arrays in an unusual memory representation: orientations as a transposed view of the
         # transposes (same values, not C-contiguous), volumes as a strided view into a larger array
         base = Rotation.random(n, random_state=seed + 17).as_matrix()
-        o = np.ascontiguousarray(base.transpose(0, 2, 1)).transpose(0, 2, 1)
+        form = (seed + n) % 3
+        if form == 0:      # transposed view of the per-grain transposes
+            o = np.ascontiguousarray(base.transpose(0, 2, 1)).transpose(0, 2, 1)
+        elif form == 1:    # Fortran-ordered (what linear-algebra back ends and MATLAB files hand over)
+            o = np.asfortranarray(base)
+        else:              # a (3, 3, n) stack seen through moveaxis
+            o = np.moveaxis(np.ascontiguousarray(np.moveaxis(base, 0, -1)), -1, 0)
         big = np.zeros(2 * n)
         big[::2] = 1.0 / n
         return o, big[::2]
